@@ -3,6 +3,7 @@ import json
 import sys
 
 from . import checkA, engine, worldA
+from .rng import Rng
 
 ASSUME_A = [
     'the mock Dezyne runtime (/verif/cxx/dzn) and the mock Dezyne-generated model header conform to the Dezyne 2.17 C++ API the generated code targets (the dzn tool and runtime are not in the sandbox)',
@@ -57,6 +58,17 @@ def dispatch(args):
         if args.runs:
             runs = args.runs
         return checkA.run_check(what, profile, level, tier, seed, models, runs, rule, ASSUME_A)
+    if what == 'C16':
+        from . import checkC16
+        u, h = (24, 120) if tier == 'quick' else (400, 500)
+        return checkC16.run_check(tier, seed, args.models or u, args.runs or h)
+    if what == 'C08':
+        from . import checkC08
+        rng = Rng(seed, 'hashseeds')
+        if tier == 'quick':
+            return checkC08.run_check(tier, seed, args.models or 120, [0, 1, 2, 3, 4, 5, 6, 7], 4)
+        hs = list(range(24)) + sorted({rng.below(4294967295) for _ in range(24)})
+        return checkC08.run_check(tier, seed, args.models or 1500, hs, 5)
     print(f'HARNESS-ERROR: unknown check {what}')
     return engine.EXIT_HARNESS
 
@@ -65,6 +77,12 @@ def replay(prop, path):
     from . import profiles, tapes
     rp = json.load(open(path, encoding='utf-8'))
     want = rp['violation']['class']
+    if rp.get('world') == 'B' and rp.get('check') == 'C16':
+        from . import checkC16
+        return checkC16.replay(path)
+    if rp.get('world') == 'C':
+        from . import checkC08
+        return checkC08.replay(path)
     if rp.get('world') == 'A':
         prof = profiles.PROFILES[rp['profile']]
         try:
